@@ -270,6 +270,20 @@ class PyPackage(pyobjects.PyPackage):
             result.update(init_object.get_attributes())
         return result
 
+    def get_attributes(self):
+        # A name bound in ``__init__.py`` hides the submodule of the same
+        # name (``from .render import render`` rebinds ``pkg.render``).
+        if self.attributes.get() is None:
+            result = dict(self._get_structural_attributes())
+            result.update(self._get_concluded_attributes())
+            self.attributes.set(result)
+        return self.attributes.get()
+
+    def get_attribute(self, name):
+        if name in self._get_concluded_attributes():
+            return self._get_concluded_attributes()[name]
+        return super().get_attribute(name)
+
     def _get_child_resources(self):
         result = {}
         for child in self.resource.get_children():
